@@ -1,5 +1,6 @@
 import VProps.C15
 import VProps.C15Compose
+import VDriver.Handshake
 #print axioms V.C15.sendJoin_ok_implies_guards
 #print axioms V.C15.sendJoin_signs_unmodified
 #print axioms V.C15.sendJoin_decision_table
@@ -45,3 +46,5 @@ import VProps.C15Compose
 #print axioms V.C15.sendJoin_required_signers_covered
 #print axioms V.C15.sendJoin_passes_verifyEventSignatures
 #print axioms V.C15.invite_required_signers_covered
+-- the template event the driver's make_join / make_leave ops are answered with IS the one of the composition theorems
+example : @V.Driver.HandshakeOps.templateEvent = @V.C15.templateEvent := rfl
